@@ -471,13 +471,13 @@ CHECKS['C09'] = dict(
                                  "the stimulus has a quiet background (speech-like bursts over -60 dB noise), as the decay clause requires"],
     evals_counter='patterns',
     runs=[
-        dict(h='h_c09.c', mode='window', flavour='prod', n={'quick': 320, 'thorough': 640}, args={'quick': ['k=8'], 'thorough': ['k=12']}, timeout={'quick': 2700, 'thorough': 21600}),
-        dict(h='h_c09.c', mode='burst', flavour='prod', n={'quick': 640, 'thorough': 16000}),
-        dict(h='h_c09.c', mode='window', flavour='asan', n={'quick': 32, 'thorough': 320}, args={'quick': ['k=6'], 'thorough': ['k=8']}),
-        dict(h='h_c09.c', mode='window', flavour='prod-fixed', n={'quick': 96, 'thorough': 320}, args={'quick': ['k=8'], 'thorough': ['k=10']}),
-        dict(h='h_c09.c', mode='burst', flavour='asan-fixed', n={'quick': 64, 'thorough': 1600}),
-        dict(h='h_c09.c', mode='multiburst', flavour='prod', n={'quick': 160, 'thorough': 3200}),
-        dict(h='h_c09.c', mode='multiburst', flavour='prod-fixed', n={'quick': 48, 'thorough': 800}),
+        dict(h='h_c09.c', mode='window', flavour='prod', ref='float', n={'quick': 320, 'thorough': 640}, args={'quick': ['k=8'], 'thorough': ['k=12']}, timeout={'quick': 2700, 'thorough': 21600}),
+        dict(h='h_c09.c', mode='burst', flavour='prod', ref='float', n={'quick': 640, 'thorough': 16000}),
+        dict(h='h_c09.c', mode='window', flavour='asan', ref='float', n={'quick': 32, 'thorough': 320}, args={'quick': ['k=6'], 'thorough': ['k=8']}),
+        dict(h='h_c09.c', mode='window', flavour='prod-fixed', ref='fixed', n={'quick': 96, 'thorough': 320}, args={'quick': ['k=8'], 'thorough': ['k=10']}),
+        dict(h='h_c09.c', mode='burst', flavour='asan-fixed', ref='fixed', n={'quick': 64, 'thorough': 1600}),
+        dict(h='h_c09.c', mode='multiburst', flavour='prod', ref='float', n={'quick': 160, 'thorough': 3200}),
+        dict(h='h_c09.c', mode='multiburst', flavour='prod-fixed', ref='fixed', n={'quick': 48, 'thorough': 800}),
     ],
     min_nontrivial={'quick': 40, 'thorough': 60},
     min_counters={'quick': {'patterns': 60000, 'plc_calls': 500000, 'fec_calls': 50000, 'fec_lbrr_events': 10000, 'lbrr_subframe_gains_compared': 100000, 'recoveries_checked': 50000, 'bursts_over_1s': 600, 'multiburst_patterns': 100},
